@@ -356,6 +356,9 @@ def run(rep, tier):
         rep.call(typed_image_rows, rep, prog, "C13.view-offsets")
         rep.call(index_rules.cropped_row_slices, rep, prog, "C13.view-offsets-cropped")
         rep.call(dispatch_pure, rep, prog, "C13.dispatch-pure")
+        # the dynamic entry point does what the typed one does: right type, same operation
+        from ..engines import type_tables
+        rep.call(type_tables.t_types, rep, prog, "C13.table")
         rep.call(step_siblings, rep, prog, "C13.step-siblings")
         rep.call(step_count, rep, prog, "C13.step-count")
         from . import c14
